@@ -8,7 +8,7 @@ import os
 
 from . import spec as S
 from .gen import PROFILES, HistoryGen
-from .machine import HarnessError, Machine, Violation, Z3Seam, install_serial_hash
+from .machine import HarnessError, Machine, Violation, Z3Seam, _Excluded, install_serial_hash
 from .rng import derive
 
 name = "history"
@@ -86,6 +86,61 @@ def alphabet_filter(claripy, m: Machine, specs):
 
 
 def execute(rec):
+    if rec.get("fault_enum"):
+        return execute_fault_enum(rec)
+    return execute_one(rec)
+
+
+def execute_fault_enum(rec):
+    """C17: run the history fault-free to learn how many solver checks the target operation makes, then once per
+    (check position, kind, phase) with exactly that fault injected - every position, as the property quantifies."""
+    import hashlib
+
+    fe = rec["fault_enum"]
+    base = {k: v for k, v in rec.items() if k != "fault_enum"}
+    base["faults"] = []
+    res = execute_one(base, want_checks=True)
+    if res["status"] != "ok":
+        res["record_override"] = base
+        return res
+    total = dict(res["stats"])
+    fired_all = []
+    digests = [res["digest"]]
+    variants = 0
+    positions = 0
+    for t in fe["targets"]:
+        c = res["checks_per_op"].get(str(t), 0)
+        positions += c
+        for j in range(1, c + 1):
+            for kind in fe["kinds"]:
+                for phase in fe["phases"]:
+                    v = dict(base)
+                    v["faults"] = [{"op": t, "nth": j, "kind": kind, "phase": phase}]
+                    r = execute_one(v)
+                    variants += 1
+                    digests.append(r["digest"])
+                    fired_all.extend(r.get("fired") or [])
+                    for k, x in r["stats"].items():
+                        total[k] = total.get(k, 0) + x
+                    if r["status"] != "ok":
+                        r["record_override"] = v
+                        r["stats"] = total
+                        r["fired"] = fired_all
+                        r["variants"] = variants
+                        return r
+    out = dict(res)
+    out.pop("checks_per_op", None)
+    out["stats"] = total
+    out["stats"]["fault_variants"] = variants
+    out["stats"]["fault_positions"] = positions
+    out["fired"] = fired_all
+    out["digest"] = hashlib.sha256("".join(digests).encode()).hexdigest()[:16]
+    out["nontrivial"] = variants > 0 and len(fired_all) > 0
+    out["variants"] = variants
+    return out
+
+
+def execute_one(rec, want_checks=False):
     import claripy
 
     cfg = rec["config"]
@@ -96,6 +151,8 @@ def execute(rec):
     out = {"status": "ok"}
     try:
         m.run()
+    except _Excluded as ex:
+        out = {"status": "excluded", "excluded": ex.res.get("excluded"), "violation": ex.res.get("violation")}
     except Violation as v:
         seam.plan = {}
         bad = alphabet_filter(claripy, m, v.detail.get("specs") or [])
@@ -115,6 +172,8 @@ def execute(rec):
     out["handles"] = sorted({h.cls for h in m.handles})
     if rec.get("want_answers"):
         out["answers"] = m.answers
+    if want_checks:
+        out["checks_per_op"] = {str(k): v for k, v in m.checks_per_op.items()}
     return out
 
 
